@@ -165,23 +165,27 @@ def rule_sign(ctx: Ctx) -> List[Ob]:
         need("lb" in f.params and "ub" in f.params, f"{q}: lb / ub parameters not found")
         S = Signs("lb", "ub", bases)
         n = 0
+        from ..flow import Expander, selection_like
+        ex = Expander(ctx, f, only=selection_like)
         parents = {id(c): p for p in ast.walk(f.node) for c in ast.iter_child_nodes(p)}
-        for w in walk_no_nested(f.node):
-            if isinstance(w, ast.Call) and dotted(w.func) == "np.where" and len(w.args) == 3 and \
-                    any(isinstance(x, ast.Name) and x.id in ("lb", "ub") for a in w.args[1:] for x in ast.walk(a)):
-                p = parents.get(id(w))
-                denom = p.right if isinstance(p, ast.BinOp) and isinstance(p.op, ast.Div) and p.left is w else None
+        for w0 in walk_no_nested(f.node):
+            if isinstance(w0, ast.Call) and dotted(w0.func) == "np.where" and len(w0.args) == 3 and \
+                    any(isinstance(x, ast.Name) and x.id in ("lb", "ub") for a in w0.args[1:] for x in ast.walk(ex.expand_at(w0, a))):
+                p = parents.get(id(w0))
+                denom = p.right if isinstance(p, ast.BinOp) and isinstance(p.op, ast.Div) and p.left is w0 else None
+                w = ex.expand_at(w0, w0)       # temporaries (masks, selected directions) inlined
+                denom = ex.expand_at(w0, denom) if denom is not None else None
                 # IfExp wrapper:  (where(...) / v) if cond else 1.0
                 br = S.where_branches(w, denom)
                 if br is None:
-                    obs.append(ob("SIGN", "bound ratio has a sign-typed condition", f, w, False,
+                    obs.append(ob("SIGN", "bound ratio has a sign-typed condition", f, w0, False,
                                   f"condition `{short(w.args[0])}` is not a comparison of the direction with 0"))
                     continue
                 masked = _masked_nonzero(f, w.args[0].left)
                 for cond, s, desc in br:
                     n += 1
                     ok = s in (NONNEG, POS, ZERO)
-                    obs.append(ob("SIGN", "bound ratio is non-negative on this branch", f, w, ok and masked,
+                    obs.append(ob("SIGN", "bound ratio is non-negative on this branch", f, w0, ok and masked,
                                   f"under {cond}: sign({desc}) = {s}" + ("" if masked else "; the direction is not masked by `!= 0`, so the other branch includes 0/0") +
                                   ("" if ok else ": the step bound / breakpoint is negative -- the wrong bound is used for this direction"),
                                   construct=f"{f.name}: np.where branch [{cond}] {desc}"))
